@@ -196,7 +196,10 @@ def asan_env():
     env = dict(os.environ)
     env["LD_PRELOAD"] = lib
     env["PYTHONMALLOC"] = "malloc"
-    env["ASAN_OPTIONS"] = "detect_leaks=0:halt_on_error=0:abort_on_error=0:exitcode=77:allocator_may_return_null=1"
+    # freed memory is overwritten (0xbd): a batch that keeps reading a buffer it no longer owns through an
+    # uninstrumented routine (zlib's crc32) then at least answers differently than before the buffer was dropped
+    env["ASAN_OPTIONS"] = ("detect_leaks=0:halt_on_error=0:abort_on_error=0:exitcode=77:allocator_may_return_null=1"
+                           ":max_free_fill_size=1048576:free_fill_byte=189")
     return env
 
 
